@@ -7,9 +7,9 @@
    constraint phi of the supported fragment,
        evaluate(phi, t) = TRUE  <->  t |= phi      evaluate(phi, t) = FALSE  <->  not t |= phi
    never UNKNOWN when Z3 decides the instantiated atoms, never an exception; same for
-   ISLaSolver.check.  The faithful model REFUTES the full statement in four classes
+   ISLaSolver.check.  The faithful model REFUTES the full statement in five classes
    (C03_eval_wide_refuted, C03_mexpr_eps_shape_refuted, C03_eval_consecutive_refuted,
-   C03_evaluate_rebound_refuted; a further one, vacuous universal quantifiers
+   C03_evaluate_rebound_refuted, C03_strategy2_numq_forall_refuted / _exists_refuted; a further one, vacuous universal quantifiers
    dropped by instantiation, was repaired in /repo by 0230f8f: C03_evaluate_vacuous_agrees); what is proved for ALL inputs is
    C03_eval_correct_partial: the statement for the evaluation proper (evaluate_legacy on the
    instantiated formula) under the guards
@@ -70,10 +70,33 @@
        an evaluator side for API-built formulas, reproduced on /repo, recorded as finding
        rebound-name-evaluator): with wfm_nofresh (= wfm minus fresh_name, C03_wfm_wfm_nofresh) in
        place of wfm the statement fails.
-   Still missing for the full statement: the second strategy for numeric quantifiers itself (Z3
-   oracle: only the dispatch is proved), BindExpression.to_tree_prefix (prefix trees are inputs),
-   the `&`/`|` smart constructors inside substitute_expressions (not modelled, see Eval.v), and the
-   four refuted classes (K_wide, K_mexpr_eps_shape, K_cons_rel, K_rebound_name) stay excluded. *)
+   THIRD PROOF EXTENSION (end of this file; Logic/Eval2.v model, Eval2Dec.v, Eval2Facts.v,
+   Eval2Check.v): the SECOND EVALUATION STRATEGY (numeric quantifiers) is modelled and proved:
+     C03_strategy2_query (no premise on Z3)   for a closed tree and an instantiated formula of the
+       fragment wf2 the elimination + predicate evaluation never raises and yields a PURE query
+       (string constants, atoms, not/and/or, quantifiers over all strings) that is VALID exactly
+       when the formula holds in the specification (numeric quantifiers over numerals);
+       C03_strategy2_elim_correct is the open-scope form (induction on the formula);
+     C03_strategy2_sound_partial (premise z3_sound: Z3's TRUE/FALSE on pure queries is right)
+       TRUE -> t |= phi, FALSE -> not;   C03_strategy2_correct_partial (+ z3_decides: Z3 answers)
+       TRUE <-> t |= phi, FALSE <-> not, never UNKNOWN, never an exception;
+     guards wf2: well-scoped, fresh names, NO match expression, count's NUM a digit string or a
+       numeric variable in scope, atoms of the family extended with str.to.int(n) REL k, and on every
+       numeric quantifier `pins` (C03_pins_sound: the body of `exists int n` can only be true, that
+       of `forall int n` only false, when n is a canonical numeral);  `narrow` is NOT needed (this
+       strategy traverses the tree, not the datrie);
+     C03_strategy2_numq_forall_refuted / _exists_refuted   without `pins` the statement FAILS for
+       every sound oracle (new class K_numq_sort, reproduced on /repo, finding
+       numeric-quantifier-string-sort): the bound variable of a numeric quantifier is a Z3 String
+       variable and the query ranges over ALL strings:  forall int n: str.to.int(n) >= 0  is FALSE,
+       exists int n: n = "abc"  is TRUE;
+     C03_strategy2_dispatch   evaluate() with this strategy plugged in (every formula).
+   Still missing for the full statement: match expressions and the instantiation step in front of
+   the second strategy (the strategy-2 theorems are about the instantiated formula), numeric
+   quantifiers that are insensitive to the sort for another reason than `pins` (e.g. the variable
+   does not occur), BindExpression.to_tree_prefix (prefix trees are inputs), the `&`/`|` smart
+   constructors (not modelled, see Eval.v / Eval2.v), and the five refuted classes (K_wide,
+   K_mexpr_eps_shape, K_cons_rel, K_rebound_name, K_numq_sort) stay excluded. *)
 From Coq Require Import ZArith.
 From ISLA Require Import Semantics Eval EvalAtoms EvalFacts MatchFacts EvalMexprFacts EvalMexprCheck EvalInstFacts EvalInstCheck.
 
@@ -533,3 +556,115 @@ Theorem C03_wfm_wfm_nofresh : forall ref f dom,
   wfm atom atom_free (fun _ => false) ref dom f -> wfm_nofresh ref dom f.
 Proof. exact wfm_wfm_nofresh. Qed.
 Print Assumptions C03_wfm_wfm_nofresh.
+
+(* ====================================================================================== *)
+(* THIRD PROOF EXTENSION: the SECOND EVALUATION STRATEGY (numeric quantifiers).            *)
+(* Model: Logic/Eval2.v (eliminate_quantifiers, evaluate_predicates_action, the pure query; *)
+(* atoms extended with str.to.int(n) REL k).  Proofs: Logic/Eval2Dec.v, Eval2Facts.v,       *)
+(* witnesses: Eval2Check.v.  The only external fact is Z3's answer on the PURE query       *)
+(* (string constants, not/and/or, quantifiers over ALL strings), premises                  *)
+(*    z3_sound   z3 p = TT -> pvalid p,  z3 p = FF -> ~ pvalid p        (pureb p)           *)
+(*    z3_decides z3 p = TT \/ z3 p = FF                                 (pureb p).          *)
+(* FULL statement that FAILS: strategy 2 = TRUE iff models (numeric quantifiers over        *)
+(* numerals).  The bound variable of `forall int` / `exists int` is a Z3 STRING variable    *)
+(* and the final query quantifies it over all strings: C03_strategy2_numq_forall_refuted,   *)
+(* C03_strategy2_numq_exists_refuted (class K_numq_sort, reproduced on /repo).  PARTIAL:    *)
+(* under the guard `pins` on every numeric quantifier (the body of `exists int n` can only  *)
+(* be true, that of `forall int n` only false, when n is a canonical numeral -- e.g. it     *)
+(* contains count(t, N, n) / not count(t, N, n) in the right place) the statement holds.    *)
+(* ====================================================================================== *)
+From ISLA Require Import Eval2 Eval2Dec Eval2Facts Eval2Check.
+
+(* canonical numerals: parse_dec inverts dec (used for "is a numeral" being decidable) *)
+Theorem C03_parse_dec_dec : forall n, parse_dec (dec n) = Some n.
+Proof. exact parse_dec_dec. Qed.
+Print Assumptions C03_parse_dec_dec.
+
+(* the guard on numeric quantifiers does what it says, for EVERY formula and substitution: if the
+   value of v is not a canonical numeral, a body with pins true is false and one with pins false is
+   true (in the pure formula produced by the elimination) *)
+Theorem C03_pins_sound : forall ref v f sg p e, dict_mem sg v = false -> elim ref f sg = Ok p ->
+  (forall n, e v <> dec n) ->
+  (pins true v f = true -> ~ pholds e p) /\ (pins false v f = true -> pholds e p).
+Proof. exact pins_sound. Qed.
+Print Assumptions C03_pins_sound.
+
+(* open scope: eliminate_quantifiers + evaluate_predicates_action under a substitution sigma
+   (= strip a) that represents the specification's assignment; numeric variables in scope are
+   string constants of the pure formula holding the numeral *)
+Theorem C03_strategy2_elim_correct : forall ref,
+  shape_ok ref = true -> is_openT ref = false -> uniq_ids ref ->
+  forall f a b e nums, inv2 ref a b -> nrel nums e b -> wf2 ref (keys a) nums f ->
+  exists p, elim ref f (strip a) = Ok p /\ pureb p = true /\
+            (pholds e p <-> models atom2_denote ref b f).
+Proof. exact elim_correct. Qed.
+Print Assumptions C03_strategy2_elim_correct.
+
+(* the query sent to Z3: pure, and VALID iff the formula holds in the specification; no exception,
+   no untranslatable rest (no P_i), for every formula of the fragment; NO premise on Z3 *)
+Theorem C03_strategy2_query : forall z3 ref,
+  shape_ok ref = true -> is_openT ref = false -> uniq_ids ref ->
+  forall f, wf2 ref [] [] f ->
+  exists p, elim ref f [] = Ok p /\ pureb p = true /\
+            (pvalid p <-> models atom2_denote ref env_empty f) /\
+            strategy2_m z3 ref f = z3 p.
+Proof. exact strategy2_query. Qed.
+Print Assumptions C03_strategy2_query.
+
+Theorem C03_strategy2_sound_partial : forall z3 ref,
+  shape_ok ref = true -> is_openT ref = false -> uniq_ids ref ->
+  forall f, z3_sound z3 -> wf2 ref [] [] f ->
+  (strategy2_m z3 ref f = Ok TT -> models atom2_denote ref env_empty f) /\
+  (strategy2_m z3 ref f = Ok FF -> ~ models atom2_denote ref env_empty f).
+Proof. exact strategy2_sound. Qed.
+Print Assumptions C03_strategy2_sound_partial.
+
+Theorem C03_strategy2_correct_partial : forall z3 ref,
+  shape_ok ref = true -> is_openT ref = false -> uniq_ids ref ->
+  forall f, z3_sound z3 -> z3_decides z3 -> wf2 ref [] [] f ->
+  (strategy2_m z3 ref f = Ok TT <-> models atom2_denote ref env_empty f) /\
+  (strategy2_m z3 ref f = Ok FF <-> ~ models atom2_denote ref env_empty f) /\
+  strategy2_m z3 ref f <> Ok UU /\ (forall ex, strategy2_m z3 ref f <> Raise ex).
+Proof. exact strategy2_correct. Qed.
+Print Assumptions C03_strategy2_correct_partial.
+
+(* evaluate() with the second strategy modelled: the dispatch, every formula *)
+Theorem C03_strategy2_dispatch : forall z3 T cst f,
+  m2_evaluate z3 T cst f =
+    match (if existsb (var_eqb cst) (fvars atom2 atom2_free f)
+           then inst_const atom2 atom2_inst T cst f else Ok f) with
+    | Raise ex => Raise ex
+    | Ok f' => if has_numq atom2 f' then strategy2_m z3 T f'
+               else eval_legacy atom2 atom2_free (fun _ => false) atom2_eval no_qmm no_reach no_count_open T f' []
+    end.
+Proof. exact m2_evaluate_dispatch. Qed.
+Print Assumptions C03_strategy2_dispatch.
+
+(* REFUTED without the guard `pins` (class K_numq_sort), for EVERY sound oracle:
+   forall int n: str.to.int(n) >= 0   holds in the specification, strategy 2 cannot answer TRUE
+   (on /repo: FALSE);   exists int n: n = "abc"   does not hold, strategy 2 cannot answer FALSE
+   (on /repo: TRUE). *)
+Theorem C03_strategy2_numq_forall_refuted :
+  wf2_nopins X_tree [] [] R1_formula /\ K_numq_sort R1_formula = true /\
+  models atom2_denote X_tree env_empty R1_formula /\
+  forall z3, z3_sound z3 -> strategy2_m z3 X_tree R1_formula <> Ok TT.
+Proof. exact strategy2_numq_forall_refuted. Qed.
+Print Assumptions C03_strategy2_numq_forall_refuted.
+
+Theorem C03_strategy2_numq_exists_refuted :
+  wf2_nopins X_tree [] [] Eval2Check.R2_formula /\ K_numq_sort Eval2Check.R2_formula = true /\
+  ~ models atom2_denote X_tree env_empty Eval2Check.R2_formula /\
+  forall z3, z3_sound z3 -> strategy2_m z3 X_tree Eval2Check.R2_formula <> Ok FF.
+Proof. exact strategy2_numq_exists_refuted. Qed.
+Print Assumptions C03_strategy2_numq_exists_refuted.
+
+(* non-vacuity: exists int n: (count(start, "<d>", n) and exists <d> x in start: x = n) and
+   forall int n: (not count(start, "<d>", n) or str.to.int(n) >= 2) on a tree with two <d> *)
+Example C03_strategy2_hypotheses_satisfiable :
+  shape_ok X_tree = true /\ is_openT X_tree = false /\ uniq_ids X_tree /\
+  wf2 X_tree [] [] E_formula /\ wf2 X_tree [] [] Eval2Check.E2_formula /\
+  K_numq_sort E_formula = false /\ K_numq_sort Eval2Check.E2_formula = false /\
+  strategy2_m z3_by_cands X_tree E_formula = Ok TT /\
+  strategy2_m z3_by_cands X_tree Eval2Check.E2_formula = Ok TT.
+Proof. exact strategy2_hypotheses_satisfiable. Qed.
+Print Assumptions C03_strategy2_hypotheses_satisfiable.
